@@ -112,7 +112,8 @@ Inductive expr :=
 | EMenu (pid : nat) (item menu : expr)     (* the <property number pid> of menuItem item of menu menu *)
 | EThe (k : thekind) (i : nat)             (* the <i-th special property / date-time function / system property> *)
 | ETheN (n : nat)                          (* the <names[n]>: a property addressed by name (5F n) *)
-| EAcc (n : nat) (a : expr).               (* the <names[n]> of a (61 n) *)
+| EAcc (n : nat) (a : expr)                (* the <names[n]> of a (61 n) *)
+| EKey (n : nat).                          (* the <names[n]>: a key / mouse / date property (empty argument list, 66 n) *)
 
 Definition b (z : Z) : byte := byte_of_Z z.
 
@@ -153,6 +154,7 @@ Fixpoint compile_e (e : expr) : bytes :=
   | EThe k i => compile_int (the_num k i) ++ [b 92; b (the_code k)]
   | ETheN n => [b 95; b (Z.of_nat n)]
   | EAcc n x => compile_e x ++ [b 97; b (Z.of_nat n)]
+  | EKey n => compile_arglist 0 true ++ [b 102; b (Z.of_nat n)]
   end.
 
 (* number of instructions *)
@@ -165,6 +167,7 @@ Fixpoint ninstr (e : expr) : nat :=
   | EThe _ _ => 2
   | ETheN _ => 1
   | EAcc _ x => ninstr x + 1
+  | EKey _ => 2
   | ECall _ args | ELCall _ args => fold_right (fun x a => ninstr x + a) 0 args + 2
   | EList items | EPList items => fold_right (fun x a => ninstr x + a) 0 items + 2
   | _ => 1
@@ -225,6 +228,7 @@ Fixpoint reify_e (en : env) (pc : Z) (e : expr) {struct e} : node :=
   | EThe k i => the_node k i (pc + zlen (compile_int (the_num k i)))
   | ETheN n => the_name_node (nm en n) pc
   | EAcc n x => Accessor (pc + zlen (compile_e x)) (reify_e en pc x) (nm en n)
+  | EKey n => KeyAccessor (pc + 2) (nm en n)
   end.
 
 Fixpoint reify_args (en : env) (pc : Z) (l : list expr) : list node * Z :=
@@ -278,7 +282,7 @@ Fixpoint wf_e (en : env) (e : expr) {struct e} : Prop :=
   | EObj f pid x => fpid_ok f pid /\ wf_e en x
   | EMenu pid it mn => (pid < List.length MENUITEM_PROPERTIES)%nat /\ wf_e en it /\ wf_e en mn
   | EThe k i => (i < List.length (the_table k))%nat
-  | ETheN n => (n < List.length (e_names en))%nat /\ Z.of_nat n < 256
+  | ETheN n | EKey n => (n < List.length (e_names en))%nat /\ Z.of_nat n < 256
   | EAcc n x => (n < List.length (e_names en))%nat /\ Z.of_nat n < 256 /\ wf_e en x
   end.
 Fixpoint wf_args (en : env) (l : list expr) : Prop := match l with [] => True | x :: r => wf_e en x /\ wf_args en r end.
